@@ -317,6 +317,49 @@ def run(tier, seed, replay=None):
             else:
                 if res[0][1]:
                     chk.nontrivial.add(("edit", i))
+        # ---- files that are not valid UTF-8 (read through the Latin-1 fall-back): trailing comments that hold the characters
+        #      only str.splitlines() takes for line breaks (NEL 0x85, form feed, vertical tab, 0x1c-0x1e) change nothing
+        #      (seeded change C04-28: the fall-back re-joined the text from splitlines())
+        for i in range(14 if tier == "quick" else 210):
+            lang = LC.LANGS[i % len(LC.LANGS)]
+            ext = LC.EXT[lang]
+            rng = random.Random(seed * 19 + i)
+            text = progen.generate(seed * 67 + i, lang, {"long_bodies": False, "strings": False})["text"]
+            if "\r" in text or "\\\n" in text or not text.isascii():
+                continue
+            lead = "#" if lang == "Python" else "//"
+            lines = [lead + " caf\xe9 \xff"] + text.split("\n")
+            marked = list(lines)
+            used = []
+            for k, ln in enumerate(lines):
+                if k and ln.rstrip().endswith((";", "{", "}", ":", ")")) and rng.random() < 0.5:
+                    ch = rng.choice(["\x85", "\x0c", "\x0b", "\x1c", "\x1d", "\x1e"])
+                    marked[k] = ln + "  " + lead + " wait" + ch + " then go ( {"
+                    used.append((k + 1, hex(ord(ch))))
+            if not used:
+                continue
+            res = {}
+            try:
+                for vname, ls in (("plain", lines), ("commented", marked)):
+                    d = os.path.join(tmp, f"l1c{i}")
+                    os.makedirs(d, exist_ok=True)
+                    with open(os.path.join(d, f"m.{ext}"), "wb") as f:
+                        f.write("\n".join(ls).encode("latin-1"))
+                    cb = Scanner.scan_path(Path(d))
+                    e = cb.files.get(f"m.{ext}")
+                    res[vname] = None if e is None else [(m.unit_name, m.start.line, m.start.column, m.end.line, m.value) for m in e.measurements()]
+                    shutil.rmtree(d, ignore_errors=True)
+            except Exception as ex:
+                chk.violation({"language": lang, "original": text}, f"m.{ext} (not valid UTF-8): scan_path raised {type(ex).__name__}: {ex}")
+                continue
+            chk.evaluations += 1
+            chk.count("non-UTF-8 file with trailing comments holding NEL / form feed / separator characters")
+            if res["plain"] != res["commented"]:
+                chk.violation({"language": lang, "file": f"m.{ext}", "original": "\n".join(lines), "trailing_comments_on_lines": used},
+                              f"m.{ext} (not valid UTF-8): trailing comments holding {sorted({c for _, c in used})} on lines {[k for k, _ in used][:8]} change the "
+                              f"functions (name, line, column, last line, length) from {str(res['plain'])[:150]} to {str(res['commented'])[:150]}")
+            elif res["plain"]:
+                chk.nontrivial.add(("latin1-comments", i))
         # ---- line ends: a file whose lines end in a lone carriage return (classic Mac) or in CR LF is read in text mode, so it
         #      is measured like the same file with LF — and inserting a comment line shifts it the same way
         #      (seeded change C04-18: the file read as bytes and decoded by hand, universal newlines lost)
